@@ -94,50 +94,77 @@ impl Z {
 }
 
 // ------------------------------------------------------------------ operands
-/// returns (source text, optional context value)
-fn operand(tok: &str, name: &str) -> (String, Option<Value>) {
+/// an operand: its source text, the text that forces run-time evaluation (a literal `L` is written
+/// `[L][0]`, a negative one `(-[L][0])`, so that the constant folder cannot see through it), and
+/// the context value for variable forms
+struct Opd {
+    src: String,
+    rt: String,
+    val: Option<Value>,
+}
+
+fn lit_opd(text: &str) -> Opd {
+    // `(-X)` / `-X` / `X`
+    let inner = text.strip_prefix('(').and_then(|t| t.strip_suffix(')')).unwrap_or(text);
+    let rt = match inner.strip_prefix('-') {
+        Some(body) => format!("(-([{}][0]))", body),
+        None => format!("([{}][0])", inner),
+    };
+    Opd { src: text.to_string(), rt, val: None }
+}
+
+fn var_opd(name: &str, v: Value) -> Opd {
+    Opd { src: name.to_string(), rt: name.to_string(), val: Some(v) }
+}
+
+fn operand(tok: &str, name: &str) -> Opd {
     let (form, val) = tok.split_once(':').expect("operand needs form:value");
     let serde_path = val.as_bytes().last().map_or(false, |c| c % 2 == 1);
     macro_rules! var {
         ($x:expr) => {{
             let x = $x;
-            let v = if serde_path { Value::from(Serde(x)) } else { Value::from(x) };
-            (name.to_string(), Some(v))
+            var_opd(name, if serde_path { Value::from(Serde(x)) } else { Value::from(x) })
         }};
     }
+    let bits64 = |h: &str| f64::from_bits(u64::from_str_radix(h, 16).expect("bad float bits"));
+    let bits32 = |h: &str| f32::from_bits(u32::from_str_radix(h, 16).expect("bad f32 bits"));
     match form {
         "lit" => {
             let z = Z::parse(val);
-            if z.neg { (format!("(-{})", z.mag), None) } else { (format!("{}", z.mag), None) }
+            lit_opd(&if z.neg { format!("(-{})", z.mag) } else { format!("{}", z.mag) })
         }
         "src" | "fsrc" => {
             let (text, _) = val.rsplit_once('=').expect("src needs text=value");
-            (text.to_string(), None)
+            lit_opd(text)
         }
-        "bool" => (name.to_string(), Some(Value::from(val == "1"))),
-        "i8" => (name.to_string(), Some(Value::from(val.parse::<i8>().expect("not an i8")))),
-        "i16" => (name.to_string(), Some(Value::from(val.parse::<i16>().expect("not an i16")))),
-        "i32" => (name.to_string(), Some(Value::from(val.parse::<i32>().expect("not an i32")))),
-        "isize" => (name.to_string(), Some(Value::from(val.parse::<isize>().expect("not an isize")))),
-        "u8" => (name.to_string(), Some(Value::from(val.parse::<u8>().expect("not a u8")))),
-        "u16" => (name.to_string(), Some(Value::from(val.parse::<u16>().expect("not a u16")))),
-        "u32" => (name.to_string(), Some(Value::from(val.parse::<u32>().expect("not a u32")))),
-        "usize" => (name.to_string(), Some(Value::from(val.parse::<usize>().expect("not a usize")))),
-        "su64" => (name.to_string(), Some(Value::from(Serde(Z::parse(val).as_u64().expect("not a u64"))))),
-        "si64" => (name.to_string(), Some(Value::from(Serde(Z::parse(val).as_i64().expect("not an i64"))))),
-        "su128" => (name.to_string(), Some(Value::from(Serde(Z::parse(val).as_u128().expect("not a u128"))))),
-        "si128" => (name.to_string(), Some(Value::from(Serde(Z::parse(val).as_i128().expect("not an i128"))))),
+        "str" => var_opd(name, Value::from(String::from_utf8(unhex(val)).expect("bad utf8"))),
+        "bool" => var_opd(name, Value::from(val == "1")),
+        "i8" => var_opd(name, Value::from(val.parse::<i8>().expect("not an i8"))),
+        "i16" => var_opd(name, Value::from(val.parse::<i16>().expect("not an i16"))),
+        "i32" => var_opd(name, Value::from(val.parse::<i32>().expect("not an i32"))),
+        "isize" => var_opd(name, Value::from(val.parse::<isize>().expect("not an isize"))),
+        "u8" => var_opd(name, Value::from(val.parse::<u8>().expect("not a u8"))),
+        "u16" => var_opd(name, Value::from(val.parse::<u16>().expect("not a u16"))),
+        "u32" => var_opd(name, Value::from(val.parse::<u32>().expect("not a u32"))),
+        "usize" => var_opd(name, Value::from(val.parse::<usize>().expect("not a usize"))),
+        "su64" => var_opd(name, Value::from(Serde(Z::parse(val).as_u64().expect("not a u64")))),
+        "si64" => var_opd(name, Value::from(Serde(Z::parse(val).as_i64().expect("not an i64")))),
+        "su128" => var_opd(name, Value::from(Serde(Z::parse(val).as_u128().expect("not a u128")))),
+        "si128" => var_opd(name, Value::from(Serde(Z::parse(val).as_i128().expect("not an i128")))),
         "u64" => var!(Z::parse(val).as_u64().expect("not a u64")),
         "i64" => var!(Z::parse(val).as_i64().expect("not an i64")),
         "u128" => var!(Z::parse(val).as_u128().expect("not a u128")),
         "i128" => var!(Z::parse(val).as_i128().expect("not an i128")),
         "flit" => {
-            let f = f64::from_bits(u64::from_str_radix(val, 16).expect("bad float bits"));
+            let f = bits64(val);
             assert!(f.is_finite(), "float literals must be finite");
             let t = format!("{:?}", f.abs());
-            if f.is_sign_negative() { (format!("(-{})", t), None) } else { (t, None) }
+            lit_opd(&if f.is_sign_negative() { format!("(-{})", t) } else { t })
         }
-        "f64" => var!(f64::from_bits(u64::from_str_radix(val, 16).expect("bad float bits"))),
+        "f64" => var!(bits64(val)),
+        "sf64" => var_opd(name, Value::from(Serde(bits64(val)))),
+        "f32" => var_opd(name, Value::from(bits32(val))),
+        "sf32" => var_opd(name, Value::from(Serde(bits32(val)))),
         _ => panic!("bad operand form {form}"),
     }
 }
@@ -148,6 +175,36 @@ fn op_src(op: &str) -> &'static str {
         "lt" => "<", "le" => "<=", "gt" => ">", "ge" => ">=", "eq" => "==", "ne" => "!=",
         _ => panic!("bad op {op}"),
     }
+}
+
+/// expression text of a case for given operand texts
+fn expr_of(op: &str, a: &str, b: &str) -> String {
+    let tmpl = match op {
+        "neg" => "-<A>",
+        "f_abs" => "<A>|abs",
+        "f_int" => "<A>|int",
+        "f_float" => "<A>|float",
+        "f_round" => "<A>|round",
+        "f_roundp" => "<A>|round(<B>)",
+        "f_sum" => "[<A>, <B>]|sum",
+        "f_min" => "[<A>, <B>]|min",
+        "f_max" => "[<A>, <B>]|max",
+        "f_concat" => "<A> ~ <B>",
+        "f_range" => "range(<A>, <B>)|list|join(',')",
+        "f_rangelen" => "range(<A>, <B>)|length",
+        "f_rangestep" => "range(0, <A>, <B>)|list|join(',')",
+        "f_batchlen" => "range(<A>)|batch(<B>)|list|length",
+        "f_fsize" => "<A>|filesizeformat",
+        "f_trunc" => "'abcdefghijklmnopqrstuvwxyz'|truncate(length=<A>)",
+        "f_indent" => "'a\nb'|indent(<A>)",
+        "f_strint" => "<A>|int",
+        "f_strfloat" => "<A>|float",
+        "t_odd" => "<A> is odd",
+        "t_even" => "<A> is even",
+        "t_divby" => "<A> is divisibleby(<B>)",
+        _ => return format!("{} {} {}", a, op_src(op), b),
+    };
+    tmpl.replace("<A>", a).replace("<B>", b)
 }
 
 fn canon(v: &Value) -> String {
@@ -162,6 +219,12 @@ fn canon(v: &Value) -> String {
     }
     if v.kind() == minijinja::value::ValueKind::Bool {
         return format!("b:{}", if v.is_true() { 1 } else { 0 });
+    }
+    if let Some(s) = v.as_str() {
+        return format!("s:{}", hex(s.as_bytes()));
+    }
+    if v.is_undefined() {
+        return "undef".into();
     }
     format!("other:{:?}", v.kind())
 }
@@ -182,52 +245,134 @@ fn run_lex(text: &str) -> String {
     r.unwrap_or_else(|_| "panic".to_string())
 }
 
-fn run_case(env: &Environment, fields: &[&str]) -> String {
+/// the environments of the embedding axis
+struct Envs {
+    plain: Environment<'static>,
+    custom: Environment<'static>,
+    strict: Environment<'static>,
+}
+
+fn make_envs() -> Envs {
+    use minijinja::syntax::SyntaxConfig;
+    let mut plain = Environment::new();
+    minijinja_contrib::add_to_environment(&mut plain);
+    let mut custom = Environment::new();
+    minijinja_contrib::add_to_environment(&mut custom);
+    custom.set_syntax(
+        SyntaxConfig::builder()
+            .block_delimiters("@%{", "}%@")
+            .variable_delimiters("@@{", "}@@")
+            .comment_delimiters("@#{", "}#@")
+            .build()
+            .unwrap(),
+    );
+    let mut strict = Environment::new();
+    minijinja_contrib::add_to_environment(&mut strict);
+    strict.set_undefined_behavior(minijinja::UndefinedBehavior::Strict);
+    strict.set_debug(false);
+    Envs { plain, custom, strict }
+}
+
+const N_EMBED: u64 = 11;
+
+/// render the case through another feature / entry point; the printed text must be what
+/// `Expression::eval` displays
+fn run_embedding(envs: &Envs, k: u64, op: &str, a: &Opd, b: &Opd, ctx: &Value) -> Result<String, minijinja::Error> {
+    let expr = expr_of(op, &a.src, &b.src);
+    let unary = b.src.is_empty();
+    match k {
+        0 => envs.plain.render_str(&format!("{{% set x = {} %}}{{{{ x }}}}", expr), ctx),
+        1 => {
+            let body = expr_of(op, "p", "q");
+            let args = if unary { a.src.clone() } else { format!("{}, {}", a.src, b.src) };
+            envs.plain.render_str(
+                &format!("{{% macro m(p, q=0) %}}{{{{ {} }}}}{{% endmacro %}}{{{{ m({}) }}}}", body, args),
+                ctx,
+            )
+        }
+        2 => envs.plain.render_str(
+            &format!(
+                "{{% set ns = namespace(x={}) %}}{{% set ns.x = {} %}}{{{{ ns.x }}}}",
+                a.src,
+                expr_of(op, "(ns.x)", &b.src)
+            ),
+            ctx,
+        ),
+        3 => envs.plain.render_str(
+            &format!("{{% for v in [{}] %}}{{{{ {} }}}}{{% endfor %}}", a.src, expr_of(op, "v", &b.src)),
+            ctx,
+        ),
+        4 => {
+            let mut env = Environment::new();
+            minijinja_contrib::add_to_environment(&mut env);
+            env.add_template_owned("t".to_string(), format!("X{{% block b %}}{{{{ {} }}}}{{% endblock %}}Y", expr))?;
+            let t = env.get_template("t")?;
+            let mut captured = t.render_captured(ctx.clone())?;
+            captured.with_state_mut(|state| state.render_block("b"))
+        }
+        5 => envs.custom.render_str(&format!("@@{{ {} }}@@", expr), ctx),
+        6 => envs.plain.render_str(&format!("{{% autoescape 'html' %}}{{{{ {} }}}}{{% endautoescape %}}", expr), ctx),
+        7 => envs.plain.render_str(&format!("{{{{ ({}) ~ \"\" }}}}", expr), ctx),
+        8 => envs.strict.render_str(&format!("{{% if true %}}{{{{ {} }}}}{{% endif %}}", expr), ctx),
+        9 => {
+            let mut env = Environment::new();
+            minijinja_contrib::add_to_environment(&mut env);
+            env.add_template_owned("page.txt".to_string(), format!("{{{{ {} }}}}", expr))?;
+            let mut out = Vec::new();
+            env.get_template("page.txt")?.render_captured_to(ctx.clone(), &mut out)?;
+            Ok(String::from_utf8(out).unwrap())
+        }
+        _ => {
+            // `State::call_macro` with the operands as argument values
+            let body = expr_of(op, "p", "q");
+            let msrc = format!("{{% macro m(p, q=0) %}}{{{{ {} }}}}{{% endmacro %}}", body);
+            let t = envs.plain.template_from_str(&msrc)?;
+            let va = envs.plain.compile_expression(&a.src)?.eval(ctx.clone())?;
+            let mut args = vec![va];
+            if !unary {
+                args.push(envs.plain.compile_expression(&b.src)?.eval(ctx.clone())?);
+            }
+            let mut captured = t.render_captured(ctx.clone())?;
+            captured.with_state_mut(|state| state.call_macro("m", &args))
+        }
+    }
+}
+
+fn case_hash(case: &[&str]) -> u64 {
+    let mut h: u64 = 0xcbf29ce484222325;
+    for f in case {
+        for b in f.bytes().chain(std::iter::once(b' ')) {
+            h ^= b as u64;
+            h = h.wrapping_mul(0x100000001b3);
+        }
+    }
+    h
+}
+
+fn run_case(envs: &Envs, fields: &[&str]) -> String {
+    let env = &envs.plain;
     let op = fields[0];
     if op == "lex" {
         return run_lex(fields[1]);
     }
-    let src;
-    let (va, vb);
-    if let Some(tmpl) = match op {
-        "f_abs" => Some("<A>|abs"),
-        "f_int" => Some("<A>|int"),
-        "f_float" => Some("<A>|float"),
-        "f_round" => Some("<A>|round"),
-        "f_sum" => Some("[<A>, <B>]|sum"),
-        "t_odd" => Some("<A> is odd"),
-        "t_even" => Some("<A> is even"),
-        "t_divby" => Some("<A> is divisibleby(<B>)"),
-        _ => None,
-    } {
-        let (sa, a) = operand(fields[1], "a");
-        let (sb, b) = if fields.len() > 2 { operand(fields[2], "b") } else { (String::new(), None) };
-        src = tmpl.replace("<A>", &sa).replace("<B>", &sb);
-        va = a;
-        vb = b;
-    } else if op == "neg" {
-        let (sa, a) = operand(fields[1], "a");
-        src = format!("-{}", sa);
-        va = a;
-        vb = None;
-    } else {
-        let (sa, a) = operand(fields[1], "a");
-        let (sb, b) = operand(fields[2], "b");
-        src = format!("{} {} {}", sa, op_src(op), sb);
-        va = a;
-        vb = b;
-    }
-    let ctx = context! { a => va, b => vb };
-    let r = guarded(|| {
-        let expr = env.compile_expression(&src)?;
-        let out = expr.eval(&ctx)?;
-        Ok::<(String, String), minijinja::Error>((canon(&out), out.to_string()))
-    });
-    let (res, shown) = match r {
-        Ok(Ok((c, s))) => (c, Some(s)),
-        Ok(Err(e)) => (format!("err:{}", error_kind_name(&e)), None),
-        Err(_) => ("panic".to_string(), None),
+    let a = operand(fields[1], "a");
+    let b = if fields.len() > 2 { operand(fields[2], "b") } else { Opd { src: String::new(), rt: String::new(), val: None } };
+    let src = expr_of(op, &a.src, &b.src);
+    let ctx = context! { a => a.val.clone(), b => b.val.clone() };
+    let eval = |text: &str| -> (String, Option<String>) {
+        let r = guarded(|| {
+            let expr = env.compile_expression(text)?;
+            let out = expr.eval(&ctx)?;
+            Ok::<(String, String), minijinja::Error>((canon(&out), out.to_string()))
+        });
+        match r {
+            Ok(Ok((c, s))) => (c, Some(s)),
+            Ok(Err(e)) => (format!("err:{}", error_kind_name(&e)), None),
+            Err(_) => ("panic".to_string(), None),
+        }
     };
+    let (res, shown) = eval(&src);
+    let mut out = res.clone();
     // the same expression printed by a template
     let tsrc = format!("{{{{ {} }}}}", src);
     let rr = guarded(|| env.render_str(&tsrc, &ctx));
@@ -242,16 +387,36 @@ fn run_case(env: &Environment, fields: &[&str]) -> String {
         "True".to_string()
     } else if res == "b:0" {
         "False".to_string()
-    } else if res.starts_with("f:") || res.starts_with("other:") {
-        shown.unwrap_or_default()
-    } else {
+    } else if res.starts_with("err:") || res == "panic" {
         res.clone()
-    };
-    if rendered == expect_render {
-        res
     } else {
-        format!("{}|render={}", res, rendered)
+        shown.clone().unwrap_or_default()
+    };
+    if rendered != expect_render {
+        out.push_str(&format!("|render={}", rendered));
     }
+    // literal operands: the constant folder must agree with the run-time operator
+    if a.rt != a.src || b.rt != b.src {
+        let (rt_res, _) = eval(&expr_of(op, &a.rt, &b.rt));
+        if rt_res != res {
+            out.push_str(&format!("|runtime={}", rt_res));
+        }
+    }
+    // a share of the cases also through another feature / entry point
+    let h = case_hash(fields);
+    if h % 4 == 0 {
+        let k = (h / 4) % N_EMBED;
+        let er = guarded(|| run_embedding(envs, k, op, &a, &b, &ctx));
+        let got = match er {
+            Ok(Ok(s)) => s,
+            Ok(Err(e)) => format!("err:{}", error_kind_name(&e)),
+            Err(_) => "panic".to_string(),
+        };
+        if got != expect_render {
+            out.push_str(&format!("|embed{}={}", k, got.replace(['\t', '\n'], " ")));
+        }
+    }
+    out
 }
 
 // ------------------------------------------------------------------ generation
@@ -893,6 +1058,144 @@ fn generate(tier: &str) -> Vec<String> {
         }
     }
 
+    // 10. more numeric entry points and functions that do arithmetic
+    let str_tok = |t: &str| format!("str:{}", hex(t.as_bytes()));
+    //     unary minus / abs on floats, f32 and serde-passed floats
+    let mut more_floats: Vec<f64> = zf.clone();
+    for _ in 0..(if thorough { 6000 } else { 600 }) {
+        more_floats.push(rand_float(&mut rng));
+    }
+    for f in &more_floats {
+        let t = if rng.chance(1, 3) { spell_float(&mut rng, *f, true) } else { float_tok(&mut rng, *f) };
+        cases.push(format!("neg {}", t));
+        cases.push(format!("neg sf64:{:016x}", f.to_bits()));
+    }
+    let mut f32s: Vec<f32> = vec![0.0, 1.0, 1.5, 0.1, 16777216.0, 16777218.0, f32::MAX, f32::MIN_POSITIVE, 1e-45, 3.0e38, 9.223372e18, 1.8446744e19];
+    for _ in 0..(if thorough { 3000 } else { 300 }) {
+        let f = f32::from_bits(rng.next() as u32);
+        if f.is_finite() {
+            f32s.push(f);
+        }
+    }
+    for f in f32s.clone() {
+        for g in [f, -f] {
+            let form = if rng.chance(1, 2) { "f32" } else { "sf32" };
+            let tf = format!("{}:{:08x}", form, g.to_bits());
+            let z = if rng.chance(1, 2) { *rng.pick(&zi) } else { rand_int(&mut rng) };
+            let ti = int_tok(&mut rng, z, None);
+            cases.push(format!("{} {} {}", rng.pick(&CMP), tf, ti));
+            cases.push(format!("{} {} {}", rng.pick(&CMP), ti, tf));
+            cases.push(format!("f_float {}", tf));
+            cases.push(format!("neg {}", tf));
+            let of = *rng.pick(&zf);
+            let other = float_tok(&mut rng, of);
+            cases.push(format!("{} {} {}", rng.pick(&["fdiv", "rem"]), tf, other));
+            cases.push(format!("{} {} {}", rng.pick(&["fdiv", "rem"]), ti, tf));
+        }
+    }
+    //     infinities against every integer of the zoo (comparisons only; exact: inf is beyond all)
+    for z in &zi {
+        for inf in ["f64:7ff0000000000000", "f64:fff0000000000000", "sf64:7ff0000000000000", "f32:7f800000", "f32:ff800000"] {
+            let op = *rng.pick(&CMP);
+            let ti = int_tok(&mut rng, *z, None);
+            if rng.chance(1, 2) {
+                cases.push(format!("{} {} {}", op, ti, inf));
+            } else {
+                cases.push(format!("{} {} {}", op, inf, ti));
+            }
+        }
+    }
+    //     min / max over mixed integers and floats
+    for _ in 0..(if thorough { 30000 } else { 3000 }) {
+        let tok = |rng: &mut Rng| -> String {
+            if rng.chance(1, 2) {
+                let z = if rng.chance(1, 2) { *rng.pick(&zi) } else { rand_int(rng) };
+                int_tok(rng, z, None)
+            } else {
+                let f = if rng.chance(1, 2) { *rng.pick(&zf) } else { rand_float(rng) };
+                float_tok(rng, f)
+            }
+        };
+        let a = tok(&mut rng);
+        let b = if rng.chance(1, 5) {
+            // the float next to an integer operand
+            match a.split_once(':') {
+                Some((f, v)) if !f.starts_with('f') => {
+                    let z = Z::parse(v);
+                    let m = z.mag as f64;
+                    let g = f64::from_bits(m.to_bits().wrapping_add(rng.below(3)).wrapping_sub(1));
+                    let g = if z.neg { -g } else { g };
+                    if g.is_finite() { float_tok(&mut rng, g) } else { tok(&mut rng) }
+                }
+                _ => tok(&mut rng),
+            }
+        } else {
+            tok(&mut rng)
+        };
+        cases.push(format!("{} {} {}", rng.pick(&["f_min", "f_max"]), a, b));
+    }
+    //     `~`, range, batch, sizes and widths
+    for _ in 0..(if thorough { 5000 } else { 500 }) {
+        let a = if rng.chance(1, 2) { *rng.pick(&zi) } else { rand_int(&mut rng) };
+        let b = if rng.chance(1, 2) { *rng.pick(&zi) } else { rand_int(&mut rng) };
+        let (ta, tb) = (int_tok(&mut rng, a, None), int_tok(&mut rng, b, None));
+        cases.push(format!("f_concat {} {}", ta, tb));
+        let (ta, tb) = (int_tok(&mut rng, a, None), int_tok(&mut rng, b, None));
+        cases.push(format!("f_rangelen {} {}", ta, tb));
+        let small = |rng: &mut Rng| Z::new(rng.chance(1, 2), rng.below(25) as u128);
+        let (x, y) = (small(&mut rng), small(&mut rng));
+        let (tx, ty) = (int_tok(&mut rng, x, None), int_tok(&mut rng, y, None));
+        cases.push(format!("f_range {} {}", tx, ty));
+        let step = if rng.chance(2, 3) { Z::new(rng.chance(1, 2), rng.below(6) as u128) } else { b };
+        let (tx, ts) = (int_tok(&mut rng, x, None), int_tok(&mut rng, step, None));
+        cases.push(format!("f_rangestep {} {}", tx, ts));
+        let n = Z::pos(rng.below(40) as u128);
+        let per = if rng.chance(2, 3) { Z::pos(1 + rng.below(9) as u128) } else { b };
+        let (tn, tp) = (int_tok(&mut rng, n, None), int_tok(&mut rng, per, None));
+        cases.push(format!("f_batchlen {} {}", tn, tp));
+        for op in ["f_fsize", "f_trunc", "f_indent"] {
+            // the allocation-size limits are another property's business: keep widths moderate
+            let w = if rng.chance(1, 2) { Z::new(a.neg, a.mag % 70) } else if op == "f_fsize" { a } else { Z::new(a.neg, a.mag % 5000) };
+            for f in w.forms() {
+                if rng.chance(1, 2) {
+                    cases.push(format!("{} {}:{}", op, f, w.text()));
+                }
+            }
+        }
+        let p = Z::new(rng.chance(1, 2), rng.below(4) as u128);
+        let (ta, tp) = (int_tok(&mut rng, a, None), int_tok(&mut rng, p, None));
+        cases.push(format!("f_roundp {} {}", ta, tp));
+    }
+    for f in &more_floats {
+        let t = float_tok(&mut rng, *f);
+        cases.push(format!("f_roundp {} lit:0", t));
+    }
+    //     strings parsed by the `int` / `float` filters
+    let mut strs: Vec<String> = [
+        "42", "-42", "+42", " 42", "42 ", "4_2", "0x10", "0X10", "0b11", "0o7", "1e3", "1E3", "1.9", "-1.9", "1e40", "-1e40",
+        "170141183460469231731687303715884105727", "170141183460469231731687303715884105728",
+        "-170141183460469231731687303715884105728", "-170141183460469231731687303715884105729",
+        "340282366920938463463374607431768211455", "340282366920938463463374607431768211456",
+        "99999999999999999999999999999999999999999", "", "abc", "1e400", "-1e400", "0.1", "1_0.5", "12345678901234567890.5",
+        "9223372036854775807", "9223372036854775808", "18446744073709551616", "1.7976931348623157e308", "2.5e-324",
+        "1e39", "1.7014118346046923e38", "-1.7014118346046923e38", "1.7014118346046921e38", "00042", "-0", "-0.0", "1.", ".5",
+        "1e", "e5", "0x", "--1", "1-", "٤٢", "１２", "1 000", "1,000",
+    ]
+    .iter()
+    .map(|s| s.to_string())
+    .collect();
+    for _ in 0..(if thorough { 4000 } else { 400 }) {
+        let z = rand_int(&mut rng);
+        strs.push(z.text());
+        let f = rand_float(&mut rng);
+        strs.push(format!("{:?}", f));
+        strs.push(format!("{:e}", f));
+    }
+    for t in &strs {
+        cases.push(format!("f_strint {}", str_tok(t)));
+        cases.push(format!("f_strfloat {}", str_tok(t)));
+    }
+
     // distinct, generation order kept
     let mut seen = HashSet::new();
     cases.retain(|c| seen.insert(c.clone()));
@@ -902,7 +1205,7 @@ fn generate(tier: &str) -> Vec<String> {
 fn main() {
     quiet_panics();
     let args: Vec<String> = std::env::args().collect();
-    let env = Environment::new();
+    let env = make_envs();
     let stdout = std::io::stdout();
     let mut out = std::io::BufWriter::new(stdout.lock());
     match args.get(1).map(|s| s.as_str()) {
